@@ -170,6 +170,27 @@ fn catalogue() -> Vec<(String, &'static str, bool)> {
     ] {
         v.push((e.to_string(), "select-nothing-step", false));
     }
+    // every kind of node as the context node of every kind of expression (absolute paths, axes, functions reading the context)
+    for ctx in ["//namespace::*", "//@*", "//text()", "//comment()", "//processing-instruction()", "/", "//*", "//*/..", "(//namespace::*)[1]", "(//@*)[last()]"] {
+        for inner in [
+            "/", "/r", "/*", "//a", "//@*", "/..", "//namespace::*", "/descendant::node()[last()]", "(/)[1]", "(//a)[1]", "/ | .", ". | /", "..", "../..", "ancestor::node()", "ancestor-or-self::node()",
+            "following::node()[1]", "preceding::node()[1]", "following-sibling::node()", "preceding-sibling::node()", "descendant-or-self::node()", "self::node()/..", "namespace::*", "@*", "*", "node()",
+            "count(/)", "string(/)", "name(/)", "name(/*)", "count(//node())", "lang('en')", "position() = last()", "string(.)", "name()", "local-name()", "namespace-uri()", "string-length()", "normalize-space()",
+            "number()", "- .", ". + 1", ". = /", ". = //a", ". != .", ". < 1", "id('x')", "id(.)", "$v", "sum(.)", "sum(/)", "count(. | /)", "count(../namespace::*)", "boolean(/)", "not(/)", "/r[1]", "//*[/]", "//*[.]",
+        ] {
+            v.push((format!("{}[{}]", ctx, inner), "context-kind", false));
+            v.push((format!("count({}[{}])", ctx, inner), "context-kind", false));
+            if !inner.contains('=') && !inner.contains('<') && !inner.contains('+') && !inner.starts_with('-') && !inner.contains("(/)") && !inner.contains('|') && !inner.starts_with('$') && !inner.contains("(.)") && !inner.contains("()")
+                || inner.ends_with("node()") || inner.ends_with("node()[1]") || inner.ends_with("node()[last()]")
+            {
+                if !inner.starts_with('/') && !inner.starts_with('(') && !inner.contains("count(") && !inner.contains("string(") && !inner.contains("name(") && !inner.contains("lang(") && !inner.contains("sum(") && !inner.contains("id(")
+                    && !inner.contains("boolean(") && !inner.contains("not(")
+                {
+                    v.push((format!("{}/{}", ctx, inner), "context-kind", false));
+                }
+            }
+        }
+    }
     // every core function at every arity 0..=4 with every argument type
     let args = ["/r/a", "//@*", "1", "0 div 0", "1 div 0", "-1", "99999999999", "'s'", "''", "true()", "//namespace::*", "/", "//text()", "-1 div 0", "1.5", "//none"];
     let funcs = [
@@ -247,6 +268,10 @@ pub struct Family {
     pub make: fn(usize) -> String,
 }
 
+fn steps(from: usize, to: usize, step: usize) -> Vec<usize> {
+    (from..=to).step_by(step).collect()
+}
+
 fn doubling(from: u32, to: u32) -> Vec<usize> {
     (from..=to).map(|k| 1usize << k).collect()
 }
@@ -284,6 +309,21 @@ fn families() -> Vec<Family> {
         Family { name: "translate-long", sizes: doubling(4, 12), make: |n| format!("translate('{0}','{0}','{0}')", "abc".repeat(n)) },
         Family { name: "substring-huge", sizes: doubling(4, 12), make: |n| format!("substring('abc', {0}, {0})", "9".repeat(n)) },
         Family { name: "filter-chain", sizes: doubling(1, 11), make: |n| format!("{}//a{}", "(".repeat(n), ")[1]".repeat(n)) },
+        // shapes whose intermediate node lists or predicate evaluations multiply with every repetition unless a step keeps each
+        // node once and a predicate is evaluated once per context: sizes grow by 2, see `steps`
+        Family { name: "down-up-chain", sizes: steps(2, 40, 2), make: |n| format!("/r{}", "/*/..".repeat(n)) },
+        Family { name: "descendant-up-chain", sizes: steps(2, 40, 2), make: |n| "//*/..".repeat(n) },
+        Family { name: "sibling-zigzag", sizes: steps(2, 40, 2), make: |n| format!("/r/*{}", "/following-sibling::*/preceding-sibling::*".repeat(n)) },
+        Family { name: "ancestor-descendant-zigzag", sizes: steps(2, 40, 2), make: |n| format!("//*{}", "/ancestor::*/descendant::*".repeat(n)) },
+        Family { name: "descendant-chain", sizes: steps(2, 40, 2), make: |n| "//*".repeat(n) },
+        Family { name: "nested-union-left", sizes: steps(2, 40, 2), make: |n| format!("{}/r/a{}", "(".repeat(n), "|/r/a)".repeat(n)) },
+        Family { name: "nested-union-right", sizes: steps(2, 40, 2), make: |n| format!("{}/r/a{}", "(/r/a|".repeat(n), ")".repeat(n)) },
+        Family { name: "nested-predicates-up", sizes: steps(2, 40, 2), make: |n| format!("//a{}{}", "[../a".repeat(n), "]".repeat(n)) },
+        Family { name: "nested-predicates-absolute", sizes: steps(2, 40, 2), make: |n| format!("//a{}{}", "[//a".repeat(n), "]".repeat(n)) },
+        Family { name: "nested-predicates-absolute-false", sizes: steps(2, 40, 2), make: |n| format!("//a{}[0]{}", "[//a".repeat(n), "]".repeat(n)) },
+        Family { name: "nested-predicates-count", sizes: steps(2, 40, 2), make: |n| format!("//a{}{}", "[count(//a".repeat(n), ") > 0]".repeat(n)) },
+        Family { name: "nested-predicates-position", sizes: steps(2, 40, 2), make: |n| format!("//*{}{}", "[../*[position() = last()]".repeat(n), "]".repeat(n)) },
+        Family { name: "nested-filter-predicates", sizes: steps(2, 40, 2), make: |n| format!("//a{}{}", "[(//a)".repeat(n), "]".repeat(n)) },
         Family { name: "alternating-filter-path", sizes: doubling(1, 10), make: |n| format!("{}/{}", "(".repeat(n), "/*)".repeat(n)) },
     ]
 }
@@ -316,9 +356,9 @@ impl Space for Families {
                 sink.count("states", 1);
                 sink.count("transitions", 1);
                 sink.heartbeat(idx);
-                let t0 = Instant::now();
+                let t0 = crate::engine::CpuWatch::start();
                 let o = run_query(&fx.doc, &text, &vec![], None);
-                let dt = t0.elapsed().as_secs_f64();
+                let dt = t0.seconds();
                 sink.count("validated", 1);
                 sink.note("family-completed", &format!("{}@{}:{}", f.name, n, classify(&o)));
                 if let Outcome::Panic(m) = &o {
@@ -333,17 +373,28 @@ impl Space for Families {
                 }
                 if dt > self.soft_cap {
                     let (pn, pt) = prev.unwrap_or((0, 0.0));
-                    let ratio = if pt > 0.0 { dt / pt } else { f64::INFINITY };
-                    if ratio >= 16.0 {
-                        sink.finding(Finding {
+                    // polynomial growth up to cubic gives at most 8x per doubling; a family growing by +2 whose cost doubles with
+                    // every repetition gives 4x per member.  Only super-polynomial evidence is reported, and only if it reproduces.
+                    let step_family = f.sizes.len() > 1 && f.sizes[1] - f.sizes[0] == 2 && f.sizes[0] == 2;
+                    let is_blowup = |dt: f64, pt: f64| {
+                        let ratio = if pt > 0.0 { dt / pt } else { f64::INFINITY };
+                        (step_family && ratio >= 2.5) || ratio >= 16.0
+                    };
+                    let time = |size: usize| {
+                        let text = (f.make)(size);
+                        let t0 = crate::engine::CpuWatch::start();
+                        let _ = run_query(&fx.doc, &text, &vec![], None);
+                        t0.seconds()
+                    };
+                    match crate::engine::confirm_blowup(dt, pt, self.soft_cap, is_blowup, || time(n), || if pn > 0 { time(pn) } else { 0.0 }) {
+                        Some((dt, pt)) => sink.finding(Finding {
                             sig: format!("blow-up/family={}", f.name),
                             what: format!("time blow-up on hostile expression shape {}", f.name),
                             case: format!("family {} size {}\n{}", f.name, n, crate::engine::sink::truncate(&text, 300)),
                             expected: format!("time polynomial in the expression length (soft cap {} s)", self.soft_cap),
-                            observed: format!("size {} took {:.3} s; size {} took {:.6} s (x{:.1})", n, dt, pn, pt, ratio),
-                        });
-                    } else {
-                        sink.note("family-capped", &format!("{}@{} {:.2}s (previous {}: {:.2}s)", f.name, n, dt, pn, pt));
+                            observed: format!("size {} took {:.3} s; size {} took {:.6} s (x{:.1}; cheapest of three runs against the dearest)", n, dt, pn, pt, if pt > 0.0 { dt / pt } else { f64::INFINITY }),
+                        }),
+                        None => sink.note("family-capped", &format!("{}@{} {:.2}s (previous {}: {:.2}s)", f.name, n, dt, pn, pt)),
                     }
                     return;
                 }
